@@ -53,14 +53,15 @@ def run_property(prop, tier, seed, work, jobs, t0):
     code = 0
     reported = set()
     nviol = 0
-    for (session, off, op) in viol:
+    nknown = 0
+    for (session, off, op, cls) in viol:
         sid = session[0].get("sid", "?")
-        kf = runner.finding_for(known, prop, sid, op)
+        kf = runner.finding_for(known, prop, cls)
         if kf:
-            key = ("K", sid, op)
-            if key not in reported:
-                reported.add(key)
-                print(f"KNOWN-FINDING: property={prop} {kf['what']} (sid={sid} op={op})")
+            if cls not in reported:
+                reported.add(cls)
+                print(f"KNOWN-FINDING: property={prop} {kf['what']} [class {cls}; e.g. session {sid}, {op}]")
+            nknown += 1
             continue
         nviol += 1
         if nviol <= 20:
@@ -68,6 +69,8 @@ def run_property(prop, tier, seed, work, jobs, t0):
             print(f"VIOLATION property={prop} replay={path}")
             log(f"  session {sid}: event #{off} ({op}) is not allowed by the specification")
         code = 1
+    extra["coverage"]["known_findings_matched"] = sorted(reported)
+    extra["coverage"]["events_matching_known_findings"] = nknown
     wall = time.time() - t0
     runner.write_evidence(prop, tier, seed, stats, wall, nviol, extra)
     log(f"[{prop}] {tier}: {stats['sessions']} sessions, {stats['events']} events validated in {stats['chunks']} TLC runs, "
